@@ -129,7 +129,7 @@ def _draw(ctx, feat, D, params, N, regime, nsmall, how="random"):
         warnings.simplefilter("ignore")
         k = max(len(params), 1)
         if regime == "large":
-            with ctx.lib("sample_random_uniform", feature=feat):
+            with ctx.lib("sample_random_uniform", feature=feat, big=N >= 50000):
                 x = fn(n=max(N // k, 1), params=params).as_tensor.detach().double().numpy()
             ROWS[0] = np.repeat(np.arange(k), len(x) // k) if len(x) % k == 0 else None
             return x
